@@ -47,6 +47,8 @@ def main():
     a = ap.parse_args()
     seed = int(os.environ.get('VERIF_SEED', '0') or 0)
     tier = a.tier if a.tier in ('quick', 'thorough') else 'quick'
+    if tier == 'thorough' and not os.environ.get('VERIF_CROSS_EVERY'):
+        os.environ['VERIF_CROSS_EVERY'] = '7'
     if a.replay:
         from . import replay_cmd
         sys.exit(replay_cmd.replay(a.prop, a.replay))
